@@ -130,7 +130,7 @@ def d10Params (q : Quirks) : Params := { hasWeigher := true, w := fun _ v => v, 
 /-- Key 1 is inserted with value 1 and admitted; then (the clock is past the periodic-sync
 deadline, so nothing is applied meanwhile) it is updated to 5 and to 2.  The map holds 2 and
 the queue holds the upsert of 5, then the upsert of 2. -/
-def d10History : List Op := [.adv 600000000, .ins 1 1, .sync, .ins 1 5, .ins 1 2]
+def d10History : List Op := [.adv Gen.PAST_SYNC_INTERVAL_NS, .ins 1 1, .sync, .ins 1 5, .ins 1 2]
 
 /-- The state after that history, with the write queue in the order given by `inverted`:
 `true` is the order two racing threads can produce (upsert of the newer value 2 first, of the
